@@ -313,3 +313,29 @@ func TestC11Soups(t *testing.T) {
 	enumSoups(soupLarge, maxLen, env.Shard, env.NShards, func(soup string) { one(soup, soupContexts) })
 	enumSoups(soupOps, env.Pick(3, 4), env.Shard, env.NShards, func(soup string) { one(soup, soupOpContexts) })
 }
+
+// TestC11Large: traversal of large flat programs.
+func TestC11Large(t *testing.T) {
+	st := harn.NewStats(env, "large")
+	defer st.Flush()
+	rapid.Check(t, func(rt *rapid.T) {
+		g := gen.NewG(rt, gen.Cfg{MaxDepth: 1, MaxOps: 2, JoinDepth: 0, Compilable: true})
+		prog, class, n := genLargeProgram(rt, g)
+		if n > 300 {
+			n = 300 // the laws are quadratic in the number of nodes
+			return
+		}
+		src := gen.Source(prog)
+		c := walkCase{Src: src, SrcQ: mkStrCase(src).SrcQ, Prune: rapid.SliceOfN(rapid.IntRange(0, 5000), 1, 3).Draw(rt, "prune")}
+		msg, parsed, _ := checkWalk(c)
+		if !parsed {
+			rt.Fatalf("harness: large grammar program rejected (C07's business)")
+		}
+		st.Eval()
+		st.Class(class)
+		st.NonTrivial(fmt.Sprint(class, n, c.Prune))
+		if msg != "" {
+			st.Violation(rt, "C11", "walk", c, "%s program of size %d: %s", class, n, trunc(msg, 600))
+		}
+	})
+}
